@@ -1,5 +1,8 @@
 """C10 implementation runner: drives NaivePBESolver / CutoffPBESolver.solve
-with a stub enumerator replaying a program list."""
+with a stub enumerator replaying a program list (kinds tasks, zero), and
+RestartPBESolver.solve around those sub-solvers with scripted enumerators whose
+clone() hands out the next scripted enumeration (kind restart) or with the real
+heap search enumerator (kind restart_real)."""
 from synth.pbe.solvers.pbe_solver import CutoffPBESolver, NaivePBESolver
 from synth.semantic.evaluator import DSLEvaluator
 from synth.specification import PBE, Example
@@ -41,6 +44,10 @@ SENT = {1: True, 2: False, 3: None, 4: 1, 5: 0, 6: [], 7: "no"}
 
 
 def impl(case):
+    if case["kind"] == "restart":
+        return impl_restart(case)
+    if case["kind"] == "restart_real":
+        return impl_restart_real(case)
     kind, use_cache, skip, request, tasks = case["data"]
     if case.get("decoy"):
         # a second evaluator with other semantics evaluates the same programs on the same
@@ -84,3 +91,247 @@ def impl(case):
         gen.close()
         out.append([events, solver.get_stats("programs")])
     return out
+
+
+# ----------------------------------------------------------------------------
+# RestartPBESolver
+# ----------------------------------------------------------------------------
+PRIORS = [0.05, 0.5, 0.001]
+E_RUNTIME = 100   # RuntimeError("generator raised StopIteration"), Sem/SolverRestart.v
+
+
+def criterion(crit):
+    c, n = crit
+    if c == 0:
+        return lambda s: len(s._data) - s._last_size > n
+    if c == 1:
+        m = max(n, 1)
+        return lambda s: s._programs % m == 0
+    return lambda s: len(s._data) >= n
+
+
+_GRAMMARS = {}
+
+
+def grammar_for(prim_ids, request, depth):
+    """Uniform PCFG over the depth-bounded CFG of the DSL made of the given primitives."""
+    from synth.syntax.dsl import DSL
+    from synth.syntax.grammars.cfg import CFG
+    from synth.syntax.grammars.tagged_det_grammar import ProbDetGrammar
+    key = (tuple(prim_ids), repr(request), depth)
+    if key not in _GRAMMARS:
+        dsl = DSL({S.PRIMS[n][0]: O.ty(S.PRIMS[n][2]) for n in prim_ids})
+        cfg = CFG.depth_constraint(dsl, O.ty(request), depth, min_variable_depth=0)
+        _GRAMMARS[key] = ProbDetGrammar.uniform(cfg)
+    return _GRAMMARS[key]
+
+
+def wire_depth(w):
+    if w[0] == 0:
+        return 1
+    return 1 + max([1] + [wire_depth(a) for a in w[2:]])
+
+
+def pcfg_ok(pcfg, base):
+    """The grammar handed to clone(): same rules as the initial one, probabilities normalised."""
+    try:
+        if pcfg.grammar is not base.grammar and pcfg.grammar != base.grammar:
+            return False
+        for nt, rules in pcfg.probabilities.items():
+            if set(rules) != set(base.probabilities[nt]):
+                return False
+            if any(not (w >= 0) for w in rules.values()) or abs(sum(rules.values()) - 1) > 1e-9:
+                return False
+        return set(pcfg.probabilities) == set(base.probabilities)
+    except Exception:
+        return False
+
+
+class Scripted(ProgramEnumerator):
+    """Enumerator number idx of a script: yields script[idx] in order (nothing
+    past the end of the script); clone() gives enumerator idx + 1.  Carries a
+    real probabilistic grammar G, as RestartPBESolver._restart_ needs."""
+
+    def __init__(self, script, idx, G, base, log):
+        super().__init__(None)
+        self.script = script
+        self.idx = idx
+        self.G = G
+        self.base = base
+        self.log = log
+
+    @classmethod
+    def name(cls):
+        return "scripted"
+
+    def generator(self):
+        for j, p in enumerate(self.script[self.idx] if self.idx < len(self.script) else []):
+            self.log["drawn"].append((self.idx, j))
+            yield p
+
+    def programs_in_banks(self):
+        return 0
+
+    def programs_in_queues(self):
+        return 0
+
+    def probability(self, program):
+        return 0.5
+
+    def clone(self, grammar):
+        self.log["clones"].append([len(self.log["drawn"]), pcfg_ok(grammar, self.base)])
+        return Scripted(self.script, self.idx + 1, grammar, self.base, self.log)
+
+
+def drive(gen, answers, yielded):
+    events = []
+    for a in answers:
+        try:
+            p = next(gen) if a == 0 else gen.send(SENT[a])
+            events.append([0, yielded(p)])
+        except StopIteration:
+            events.append([1])
+        except RuntimeError as ex:
+            if "generator raised StopIteration" in str(ex):
+                events.append([2, E_RUNTIME])
+            else:
+                events.append([2, -1, "RuntimeError", str(ex)[:200]])
+        except Exception as ex:
+            if type(ex) in S.EXC_IDS:
+                events.append([2, S.EXC_IDS[type(ex)]])
+            else:
+                events.append([2, -1, type(ex).__name__, str(ex)[:200]])
+    gen.close()
+    return events
+
+
+def restart_solver(kind, use_cache, skip, crit, prior, log):
+    from synth.pbe.solvers.restart_pbe_solver import RestartPBESolver
+    ev = DSLEvaluator(O.semantics_dict(sorted(S.PRIMS)), use_cache=bool(use_cache))
+    ev.skip_exceptions = {S.EXC_BY_ID[i] for i in skip}
+    solver = RestartPBESolver(ev, (NaivePBESolver, CutoffPBESolver)[kind], restart_criterion=criterion(crit),
+                              uniform_prior=PRIORS[prior])
+    sub_test = solver.subsolver._test_
+
+    def logged_test(task, program):
+        log["tested"].append(program)
+        return sub_test(task, program)
+
+    solver.subsolver._test_ = logged_test
+    return solver
+
+
+def impl_restart(case):
+    kind, use_cache, skip, request, crit, prior, tasks = case["data"]
+    log = {}
+    solver = restart_solver(kind, use_cache, skip, crit, prior, log)
+    type_request = O.ty(request)
+    out = []
+    for examples, streams, answers in tasks:
+        script = [[O.prog(w) for w in st] for st in streams]
+        coords = {id(p): [i, j] for i, st in enumerate(script) for j, p in enumerate(st)}
+        depth = max([1] + [wire_depth(w) for st in streams for w in st])
+        base = None
+        for d in range(depth, 7):
+            # CFG.depth_constraint raises when no program of the requested type fits in the bound (finding of C01)
+            try:
+                base = grammar_for(sorted(S.PRIMS), request, d)
+                break
+            except KeyError:
+                continue
+        missing = [[i, j] for i, st in enumerate(script) for j, p in enumerate(st) if p not in base]
+        if missing:
+            raise AssertionError("harness: scripted programs outside the grammar: %r" % missing[:5])
+        log.update({"drawn": [], "tested": [], "clones": []})
+        task = Task(type_request, PBE([Example([S.value_from_wire(v) for v in i], S.value_from_wire(o))
+                                       for i, o in examples]))
+        gen = solver.solve(task, Scripted(script, 0, base, base, log), 1e9)
+
+        def rank(p):
+            c = coords.get(id(p))
+            return log["drawn"].index(tuple(c)) if c is not None and tuple(c) in log["drawn"] else -1
+
+        events = drive(gen, answers, rank)
+        data = [[rank(p), sc] for p, sc in solver._data]
+        out.append([events, solver.get_stats("programs"), solver.get_stats("restarts"),
+                    [list(c) for c in log["drawn"]], [coords.get(id(p), [-1, -1]) for p in log["tested"]],
+                    [c[0] for c in log["clones"]], data, all(c[1] for c in log["clones"])])
+    return out
+
+
+class Logging(ProgramEnumerator):
+    """The real enumerator behind a wrapper that records what each generator
+    produces; generator number idx stops after caps[idx] programs (a finite
+    enumerator), nothing after the last cap."""
+
+    def __init__(self, inner, idx, caps, base, log):
+        super().__init__(inner.filter)
+        self.inner = inner
+        self.idx = idx
+        self.caps = caps
+        self.base = base
+        self.log = log
+
+    @classmethod
+    def name(cls):
+        return "logging"
+
+    @property
+    def G(self):
+        return self.inner.G
+
+    def generator(self):
+        import itertools
+        while len(self.log["streams"]) <= self.idx:
+            self.log["streams"].append([])
+        # past the last cap the enumerators produce nothing: on a task without solution an eager criterion
+        # would otherwise restart for ever (every clone enumerates the recorded programs again)
+        cap = self.caps[self.idx] if self.idx < len(self.caps) else 0
+        for p in itertools.islice(self.inner.generator(), cap):
+            self.log["streams"][self.idx].append(p)
+            self.log["drawn"].append(p)
+            yield p
+
+    def programs_in_banks(self):
+        return self.inner.programs_in_banks()
+
+    def programs_in_queues(self):
+        return self.inner.programs_in_queues()
+
+    def probability(self, program):
+        return self.inner.probability(program)
+
+    def clone(self, grammar):
+        self.log["clones"].append([len(self.log["drawn"]), pcfg_ok(grammar, self.base)])
+        return Logging(self.inner.clone(grammar), self.idx + 1, self.caps, self.base, self.log)
+
+
+def impl_restart_real(case):
+    from synth.syntax.grammars.enumeration.heap_search import enumerate_prob_grammar
+    kind, use_cache, skip, request, crit, prior, prims, depth, caps, (examples, answers) = case["data"]
+    log = {"drawn": [], "tested": [], "clones": [], "streams": []}
+    solver = restart_solver(kind, use_cache, skip, crit, prior, log)
+    base = grammar_for(prims, request, depth)
+    task = Task(O.ty(request), PBE([Example([S.value_from_wire(v) for v in i], S.value_from_wire(o))
+                                    for i, o in examples]))
+    gen = solver.solve(task, Logging(enumerate_prob_grammar(base), 0, caps, base, log), 1e9)
+
+    def rank(p, start=0):
+        # heap search shares program objects between enumerations: the latest draw of that object
+        for k in range(len(log["drawn"]) - 1, start - 1, -1):
+            if log["drawn"][k] is p:
+                return k
+        return -1
+
+    events = drive(gen, answers, rank)
+    data = []
+    prev = -1
+    for p, sc in solver._data:
+        # _data is filled in drawing order: the first draw of that object after the previous entry
+        k = next((k for k in range(prev + 1, len(log["drawn"])) if log["drawn"][k] is p), -1)
+        data.append([k, sc])
+        prev = k if k >= 0 else prev
+    return {"streams": [[O.prog_wire(p) for p in st] for st in log["streams"]],
+            "tasks": [[events, solver.get_stats("programs"), solver.get_stats("restarts"),
+                       [O.prog_wire(p) for p in log["drawn"]], [O.prog_wire(p) for p in log["tested"]],
+                       [c[0] for c in log["clones"]], data, all(c[1] for c in log["clones"])]]}
